@@ -158,6 +158,10 @@ def main():
     # twins: programs whose texts coincide except for the value of a named constant (memoisation keyed too coarsely shows here)
     twins = [("h01_cat_quarter", "h02_cat_three_quarters"), ("h02_cat_three_quarters", "h01_cat_quarter"), ("h03_gamma_shape2", "h04_gamma_shape3"),
              ("h01_cat_quarter", "h05_cat_symbolic"), ("h05_cat_symbolic", "h02_cat_three_quarters"), ("h04_gamma_shape3", "h03_gamma_shape2")]
+    # polluters: conditional draws of a family (their support gets the default variable added), then a program that draws
+    # from the same family / size -- shared mutable results of get_support show here
+    twins += [("h08_cond_categorical2", "h01_cat_quarter"), ("h09_cond_categorical3", "h10_victim_categorical3"), ("h08_cond_categorical2", "h05_cat_symbolic"),
+              ("h09_cond_categorical3", "s17_three_choice_self"), ("s10_cond_draw_default", "s09_locscale")]
     for A, B in twins:
         if A in corpus and B in corpus:
             plans.append((f"twin/{A}>{B}", [step(B)], 0, [step(A), step(B)], 0, None))
